@@ -202,6 +202,16 @@ def descs_struct(tier):
         yield space.to_desc(2, gates, outputs="all")
     for gates in space.circuits(1, 1, types=("nand", "xor", "not"), max_arity=2, consts=("0", "1"), min_gates=1):
         yield space.to_desc(1, gates, consts=("0", "1"), outputs="all")
+    # the single output IS a constant (the super-circuit form must still reproduce it)
+    for k in ("0", "1"):
+        yield {"name": "konly", "nodes": [["k", k, [], True]]}
+        yield {"name": "kout", "nodes": [["a", "input", [], False], ["k", k, [], True]]}
+        yield {"name": "kout2", "nodes": [["a", "input", [], False], ["k", k, [], True], ["g", "not", ["a"], False]]}
+    # x constants inside output cones
+    for gates in space.circuits(1, 2, types=("nand", "nor", "xor", "not", "and"), max_arity=2, consts=("x",), min_gates=1):
+        d = space.to_desc(1, gates, consts=("x",), outputs="sinks")
+        if live_only(d) and not any(x[1] == "x" and x[3] for x in d["nodes"]):
+            yield d
     # constants inside output cones
     for gates in space.circuits(2, 2, types=("nand", "nor", "xor", "not", "and"), max_arity=2, consts=("0", "1"), min_gates=1):
         d = space.to_desc(2, gates, consts=("0", "1"), outputs="sinks")
@@ -261,10 +271,11 @@ def run(job):
         acc.states += 1
         if check_list(acc, desc, structural):
             acc.nontrivial += 1
-        if sum(1 for x in desc["nodes"] if x[3]) == 1:
+        has_x = any(x[1] == "x" for x in desc["nodes"])   # equivalence of the super-circuit is judged on binary circuits
+        if sum(1 for x in desc["nodes"] if x[3]) == 1 and not has_x:
             check_super(acc, desc)
         if (_idx // job["of"]) % 16 == 0:
-            if sum(1 for x in desc["nodes"] if x[3]) == 1:
+            if sum(1 for x in desc["nodes"] if x[3]) == 1 and not has_x:
                 for v in space.VARIANTS[1:]:
                     check_super(acc, desc, variant=v)
             check_list(acc, desc, structural, repeat=True)
